@@ -434,6 +434,20 @@ def mapGet (w : World) (p : SlabID) (k : MKey) : Except WErr (Elem × World) :=
 /-- all containers reopened from their registers on a fresh storage -/
 def reopen (w : World) : World := { w with hinfo := [], mutIdx := [] }
 
+/-- `Array.SetType` / `OrderedMap.SetType` through the handle of container `h`: a standalone root
+    is stored; an inlined one lives in its parent's slab, so the parent is notified instead -/
+def setType (w : World) (h : SlabID) (ty : Nat) (cx : Ctx) : Except WErr (World × Ctx) :=
+  match w.cont? h with
+  | some (.arr a) =>
+    let (a', cx) := a.setType ty cx
+    let w := w.setCont h (.arr a')
+    if a.isInlined then notifyParent w.fuelOf w h cx else .ok (w, cx)
+  | some (.map m) =>
+    let (m', cx) := m.setType ty cx
+    let w := w.setCont h (.map m')
+    if m.isInlined then notifyParent w.fuelOf w h cx else .ok (w, cx)
+  | none => .error .unknownContainer
+
 /-- `NewArray` / `NewMap`: a new standalone container -/
 def newArr (w : World) (ty : Nat) (cx : Ctx) : SlabID × World × Ctx :=
   let (a, cx) := Arr.new w.addr ty cx
